@@ -184,3 +184,75 @@ Theorem C10_example : name_chromosomes (s "SUPER_") ex_fused ex_items
             (combine ex_fused [s "SUPER_2"; s "SUPER_1"; s "SUPER_1_unloc_1"])).
 Proof. vm_compute. reflexivity. Qed.
 Print Assumptions C10_example.
+
+(* ---- scaffold names are unique within each output assembly *)
+From Tola Require Proofs.UniqueNames Proofs.RemapTail.
+
+(* END TO END, single-haplotype maps, every hypothesis on the input and the
+   map: if the generated namespaces are respected (input_namespace_ok: neither
+   the autosome prefix nor "H_" is a prefix of, or prefixed by, an input
+   scaffold name, a Pretext scaffold name or a chromosome-name tag; Pretext
+   scaffold names start with an upper-case letter; chromosome-name tags do not
+   start with a digit), at most 191 painted scaffolds (the model's characters
+   are bytes: 65 + k wraps there, Python's chr does not), and no haplotype
+   anywhere (no haplotype tag, no HAP_..._n names), then every output assembly
+   of every completed run has pairwise distinct scaffold names *)
+Theorem C10_names_unique_single_haplotype : forall g prefix bpt input pretext o,
+  remap repaired g prefix bpt input pretext = Ok o ->
+  Proofs.UniqueNames.input_namespace_ok prefix input pretext ->
+  (length (filter Proofs.UniqueNames.painted_b pretext) <= 191)%nat ->
+  Proofs.UniqueNames.no_haplotypes input -> Proofs.UniqueNames.no_haplotypes pretext ->
+  forall a, In a (out_asms o) -> NoDup (map sc_name (oa_scaffolds a)).
+Proof. exact Proofs.UniqueNames.names_nodup_no_haplotypes. Qed.
+Print Assumptions C10_names_unique_single_haplotype.
+
+(* with haplotypes: the same conclusion when, in addition, on the fused
+   scaffolds (1) no untagged scaffold's haplotype is spelled like another's tag
+   and (2) scaffolds with the same tag and name have the same haplotype.
+   (2) is exactly what the known finding violates. *)
+Theorem C10_names_unique : forall g prefix bpt input pretext o,
+  remap repaired g prefix bpt input pretext = Ok o ->
+  Proofs.UniqueNames.input_namespace_ok prefix input pretext ->
+  (length (filter Proofs.UniqueNames.painted_b pretext) <= 191)%nat ->
+  Proofs.UniqueNames.no_tag_hap_clash (Proofs.UniqueNames.fused_of_run g prefix bpt input pretext) ->
+  Proofs.UniqueNames.tagged_same_hap (Proofs.UniqueNames.fused_of_run g prefix bpt input pretext) ->
+  forall a, In a (out_asms o) -> NoDup (map sc_name (oa_scaffolds a)).
+Proof. exact Proofs.UniqueNames.names_nodup_observable. Qed.
+Print Assumptions C10_names_unique.
+
+(* fusing leaves pairwise distinct (tag, haplotype, name) keys, for every run *)
+Theorem C10_fuse_keys_nodup : forall g rs fused,
+  fuse_all repaired g rs = Ok fused -> NoDup (map Proofs.UniqueNames.fuse_key_of fused).
+Proof. exact Proofs.UniqueNames.fuse_keys_nodup. Qed.
+Print Assumptions C10_fuse_keys_nodup.
+
+(* and a repeated name inside one assembly can only be one of three collisions
+   (same tag / different haplotypes; a tag spelled like a haplotype; an empty
+   label) *)
+Theorem C10_duplicate_is_collision : forall l, NoDup (map Proofs.UniqueNames.fuse_key_of l) ->
+  forall k cur scs, In (k, (cur, scs)) (fold_left Proofs.RemapTail.group_step l []) ->
+  forall i j a b, i <> j -> nth_error scs i = Some a -> nth_error scs j = Some b ->
+    sc_name a = sc_name b -> Proofs.UniqueNames.collision a b.
+Proof. exact Proofs.UniqueNames.assembly_duplicate_is_collision. Qed.
+Print Assumptions C10_duplicate_is_collision.
+
+(* the recorded known finding, on the model (and reproduced on /repo): X
+   painted in HAP1 and in HAP2, one piece of each tagged Contaminant -- the
+   Contaminant assembly holds two scaffolds named X *)
+Theorem C10_duplicate_names_refuted :
+  Proofs.UniqueNames.names_of (remap repaired Proofs.UniqueNames.ex_gap (s "SUPER_") (10, 1)
+                                 Proofs.UniqueNames.dupX_input Proofs.UniqueNames.dupX_pretext)
+  = [(Some (s "HAP1"), [s "SUPER_X"]);
+     (Some (s "Contaminant"), [s "X"; s "X"]);
+     (Some (s "HAP2"), [s "SUPER_X"])].
+Proof. exact Proofs.UniqueNames.duplicate_names_in_contaminants_chrX. Qed.
+Print Assumptions C10_duplicate_names_refuted.
+
+(* non-vacuity: two painted chromosomes (one with an unloc), a haplotig, a
+   contaminant and a left-over scaffold satisfy all hypotheses of the first theorem *)
+Theorem C10_names_unique_instance : forall o,
+  remap repaired Proofs.UniqueNames.ex_gap (s "SUPER_") (10, 1)
+        Proofs.UniqueNames.nv_input Proofs.UniqueNames.nv_pretext = Ok o ->
+  forall a, In a (out_asms o) -> NoDup (map sc_name (oa_scaffolds a)).
+Proof. exact Proofs.UniqueNames.unique_names_example_no_haplotypes. Qed.
+Print Assumptions C10_names_unique_instance.
